@@ -56,6 +56,15 @@ const (
 	errIndexGreaterThanArray     = "index greater than length of array in path element"
 )
 
+// newPath builds the maps for a path that does not exist yet, with value as
+// its leaf. It is what gets stored when loop returns errOverwritePath
+func newPath(path []string, value any) any {
+	for i := len(path) - 1; i >= 0; i-- {
+		value = map[string]any{path[i]: value}
+	}
+	return value
+}
+
 func loop(ctx context.Context, v any, i int, path []string, new *any, action int) (ret any, err error) {
 	if !debug.Enabled {
 		defer func() {
@@ -92,8 +101,7 @@ func loop(ctx context.Context, v any, i int, path []string, new *any, action int
 
 			ret, err = loop(ctx, v[pathI], i+1, path, new, action)
 			if err == errOverwritePath {
-				v[pathI] = *new
-
+				ret, err = newPath(path[i+1:], *new), nil
 			}
 			if err == nil {
 				v[pathI] = ret
@@ -219,8 +227,7 @@ func loop(ctx context.Context, v any, i int, path []string, new *any, action int
 		case map[any]any:
 			ret, err = loop(ctx, v[path[i]], i+1, path, new, action)
 			if err == errOverwritePath {
-				v[path[i]] = *new
-
+				ret, err = newPath(path[i+1:], *new), nil
 			}
 			if err == nil {
 				v[path[i]] = ret
@@ -230,8 +237,7 @@ func loop(ctx context.Context, v any, i int, path []string, new *any, action int
 		case map[string]any:
 			ret, err = loop(ctx, v[path[i]], i+1, path, new, action)
 			if err == errOverwritePath {
-				v[path[i]] = *new
-
+				ret, err = newPath(path[i+1:], *new), nil
 			}
 			if err == nil {
 				v[path[i]] = ret
